@@ -1,7 +1,7 @@
 """Operation sequences on configuration objects (C10, C11, C20): create / set / get / list / ext / write."""
 from .scn import Scenario, h
 
-SECTIONS = [b"A", b"[A]", b"B", b"", None, b"[B]", b"[]", b"[A", b"C]", b"AB", b"[AB]", b"a"]
+SECTIONS = [b"A", b"[A]", b"B", b"", None, b"[B]", b"[]", b"[A", b"C]", b"AB", b"[AB]", b"a", b"ab", b"bA"]   # the last two: same djb2 hash
 KEYS = [b"x", b"y", b"z", b"w", b"", None, b"xy", b"X", b"x ", b"y\t", b" x"]   # the last three: blanks around a key handed to a setter or getter are part of the key
 TEXTS = [b"1", b"v", b"", b"Yes Please", b"TRUE", b"no", b"0x10", b"-5", b"4294967296", b" padded ", b"a\nb", b'"q"',
          b"_none_", b"p-", b"010", b"12abc", None, b'  "hello world"', b'\t"q r" tail']
@@ -68,6 +68,9 @@ def set_op(s, rng, slot, conventional=False):
         if rng.random() < 0.3 and not conventional:
             # what was just stored, seen through the extended getter (value lines, comments, line number) and released again
             s.add("EXT", slot, h(g), h(k))
+        elif rng.random() < 0.3 and not conventional:
+            # ... and through the getter with a default (the key exists: the default must not be used, whatever the value is)
+            s.add("GETD", slot, "str", h(g), h(k), h(b"dflt"))
     elif t == 1:
         s.add("SET", slot, "int", h(g), h(k), rng.choice(INTS))
     elif t == 2:
